@@ -822,7 +822,11 @@ def oracle(rng, tier):
     return {"evaluations": len(shapes) + 4 + e2 + e3 + e4, "distinct_nontrivial": len(seen) + e2 + gen_seen,
             "rule": "CLI: argument shapes of `sync` (each of six options absent/once/twice x truth x truth-file-exists; "
                     + ("all 4374 enumerated" if exhaustive else "sampled in quick tier, exhaustive in thorough") +
-                    ") run through the real command line, plus sync_properties/gen rejections, plus `sync_properties` over the "
+                    "; accepted shapes over the pre-states of their targets - agreeing, missing, absent, stale, a file of zero "
+                    "statements: touched / blank lines / comments only - plus the grid truth kind x pre-state; every other rejected "
+                    "shape with its files named in directories that do not exist; the snapshot compared holds file names, bytes and "
+                    "directory names) run through the real command line, plus sync_properties/gen rejections (also those of the "
+                    "argument parser itself, files in directories that do not exist), plus `sync_properties` over the "
                     "grid input file = output file x --input-eval x 1..3 property pairs x template absent/given on generated "
                     "projects (locations: module constants, assignments, class attributes, function arguments; judged for 'no "
                     "internal error, nothing but the output touched, output parses'), plus `gen` over the grid "
